@@ -62,16 +62,16 @@ func genTokens(g *Rng, tier string) *Plan {
 		life = 3_600_000
 	}
 	p := &Plan{Knobs: mustJSON(k)}
-	steps := []tokStep{{Kind: "login", User: g.Intn(8)}}
+	steps := []tokStep{{Kind: "login", User: g.Intn(9)}}
 	nlogins := 1
-	n := 3 + g.Intn(8)
+	n := 3 + g.Intn(9)
 	for i := 0; i < n; i++ {
 		switch g.PickW(2, 10, 4, 1) {
 		case 0:
-			steps = append(steps, tokStep{Kind: "login", User: g.Intn(8)})
+			steps = append(steps, tokStep{Kind: "login", User: g.Intn(9)})
 			nlogins++
 		case 1:
-			steps = append(steps, tokStep{Kind: "present", Token: Pick(g, tokKinds...), Login: g.Intn(nlogins), Path: Pick(g, "/page", "/page", "/gated/x")})
+			steps = append(steps, tokStep{Kind: "present", Token: Pick(g, tokKinds...), Login: g.Intn(nlogins), Path: Pick(g, "/page", "/page", "/gated/x", "/nested/x")})
 		case 2:
 			steps = append(steps, tokStep{Kind: "advance", Ms: Pick(g, int64(1000), life/2, life-5000, life-1000, life+1000, life+5000, 2*life)})
 			steps = append(steps, tokStep{Kind: "present", Token: "valid", Login: g.Intn(nlogins), Path: "/page"})
@@ -163,6 +163,7 @@ func execTokens(t *testing.T, p *Plan) *Result {
 		}
 		deploys = append(deploys, d)
 	}
+	deploys[0].nestBehind(deploys[1])
 	d := deploys[0]
 	life := ms(k.LifetimeMs)
 	if k.LifetimeMs == 0 {
@@ -308,7 +309,19 @@ func execTokens(t *testing.T, p *Plan) *Result {
 			if tok != "" {
 				cookies = []*http.Cookie{{Name: cookieName, Value: tok}}
 			}
-			hitsBefore, gatedBefore := len(d.hits), len(d.gated)
+			nestedPath := strings.HasPrefix(st.Path, "/nested/")
+			if nestedPath {
+				// the outer deployment is satisfied by its own genuine session cookie; whether the inner (target)
+				// deployment's handler runs must still depend only on the target's own token
+				outerName := deploys[1].sessionCookieName()
+				if outerName != cookieName || tok == "" {
+					cookies = append(cookies, &http.Cookie{Name: outerName, Value: l.other})
+				} else {
+					nestedPath = false // both deployments read the same cookie name: the outer one cannot be satisfied separately
+					st.Path = "/page"
+				}
+			}
+			hitsBefore, gatedBefore := len(d.hits)+len(d.nested), len(d.gated)
 			var rep *reply
 			at(jump, func() { rep = deliver(d.handler, "GET", d.base+st.Path, "", "", cookies) })
 			if rep.Panic != nil {
@@ -316,7 +329,7 @@ func execTokens(t *testing.T, p *Plan) *Result {
 				return res
 			}
 			gatedPath := strings.HasPrefix(st.Path, "/gated/")
-			ran := len(d.hits) > hitsBefore || len(d.gated) > gatedBefore
+			ran := len(d.hits)+len(d.nested) > hitsBefore || len(d.gated) > gatedBefore
 			authenticated := ran || (gatedPath && rep.Code == http.StatusForbidden && len(rep.Cookies) == 0 && rep.Header.Get("Location") == "")
 			observed := "NO_SESSION"
 			if authenticated {
@@ -363,9 +376,12 @@ func execTokens(t *testing.T, p *Plan) *Result {
 				}
 			}
 			var h appHit
-			if gatedPath {
+			switch {
+			case gatedPath:
 				h = d.gated[len(d.gated)-1]
-			} else {
+			case nestedPath:
+				h = d.nested[len(d.nested)-1]
+			default:
 				h = d.hits[len(d.hits)-1]
 			}
 			wantSub := u.NameID
